@@ -1,7 +1,7 @@
 SPECIFICATION CSpec
 CONSTANTS
   Variant = "code"
-  SeedIds = {1, 2, 3, 4}
+  SeedIds = {1, 2, 3, 4, 5}
   Deep = FALSE
 INVARIANTS Props ExportInv
 CHECK_DEADLOCK FALSE
